@@ -35,7 +35,14 @@ type Walker struct {
 func NewWalker(w *core.World, opts gen.NameOpts, weights map[string]int) *Walker {
 	k := &Walker{W: w, R: w.Rng, Opts: opts, Weights: weights, Hostile: 10, MaxContent: 300}
 	k.Pool = gen.NameSet(k.R, opts)
-	k.BranchNames = []string{"main", "dev", "a", "ab", "b", "a.b", "a-b", "feat_1", "x2", "topic", "Main", "DEV", "zeta", "alpha", "main.lock", "dev.lock", "a.lock", "m_", "HEAD"}
+	k.BranchNames = []string{"main", "dev", "a", "ab", "b", "a.b", "a-b", "feat_1", "x2", "topic", "Main", "DEV", "zeta", "alpha", "main.lock", "dev.lock", "a.lock", "m_", "HEAD", "topic.tmp", "main.tmp", "a.tmp", "a.new", "a~", "a.bak", "a.orig"}
+	if w.Hist%6 == 3 {
+		// a small pool of legal but odd names (separators Goit itself uses in HEAD and in the journal, blanks at the
+		// ends next to the trimmed twin, names beyond 112 bytes that are prefixes of each other): with few names the
+		// history is likely to switch to one of them and keep working there
+		q := strings.Repeat("q", 111)
+		k.BranchNames = []string{"main", "a", "a.tmp", "a.lock", "main.tmp", "a: b", "a: b: c", "ref: refs/heads/a", "x y", "topic", "topic ", " topic", "q:r", "100%s", q, q + "r", q + "rs"}
+	}
 	for a, wgt := range weights {
 		if wgt > 0 {
 			k.keys = append(k.keys, a)
@@ -51,6 +58,92 @@ func (k *Walker) Init() {
 	k.goit("init")
 	k.goit("config", "user.name", "Test User")
 	k.goit("config", "user.email", "test@example.com")
+}
+
+// BigNames returns n conflict-free file paths spread over a fixed set of directories (flat, nested, siblings
+// whose names sort around '/'), with names of varying length: the population of the "scale" histories
+// (staging-area files beyond 4 KiB, more paths per command than any worker pool or batch size).
+func BigNames(r *rand.Rand, n int) []string {
+	dirs := []string{"", "", "big/", "big/sub/", "big/sub/deep/", "big.d/", "big-x/", "src/", "src/pkg/", "z/"}
+	exts := []string{".txt", ".go", ".c", "", ".md", ".data"}
+	out := make([]string, 0, n)
+	for i := 0; i < n; i++ {
+		d := dirs[r.IntN(len(dirs))]
+		if i%11 == 0 {
+			d = fmt.Sprintf("m%02d/", i%7)
+		}
+		stem := "f"
+		if i%5 == 0 {
+			stem = strings.Repeat("long", 1+r.IntN(8))
+		}
+		out = append(out, fmt.Sprintf("%s%s%03d%s", d, stem, i, exts[r.IntN(len(exts))]))
+	}
+	sort.Strings(out)
+	return out
+}
+
+// Populate writes n small files in one step and returns their paths.
+func (k *Walker) Populate(n int) []string {
+	names := BigNames(k.R, n)
+	k.W.EditMany(names, int64(k.R.IntN(1000)))
+	k.W.C.Count("scale.populated-histories")
+	return names
+}
+
+// PerturbMany rewrites about half of the given files (always including the first and the last three tracked paths in
+// index order, where a batch or worker split would lose its remainder) and deletes a few, in two steps.
+func (k *Walker) PerturbMany(names []string) {
+	tr := k.tracked()
+	pickSet := map[string]bool{}
+	for i, p := range tr {
+		if i < 3 || i >= len(tr)-3 {
+			pickSet[p] = true
+		}
+	}
+	for _, p := range names {
+		if k.R.IntN(2) == 0 {
+			pickSet[p] = true
+		}
+	}
+	sn := k.W.State()
+	var mod []string
+	for _, p := range SortedSet(pickSet) {
+		if IsFileOnDisk(sn, p) {
+			mod = append(mod, p)
+		}
+	}
+	if len(mod) == 0 {
+		return
+	}
+	k.W.EditMany(mod, int64(1000+k.R.IntN(1000)))
+	for i := 0; i < 3; i++ {
+		k.W.Edit("rm", mod[k.R.IntN(len(mod))], nil)
+	}
+}
+
+// TwinProbe works on two branches whose names differ by a suffix or prefix that a lock / temporary / backup file
+// of the other one could carry (X and X.tmp, X.lock, X~, tmp-X ...): the current branch is the decorated name while
+// the plain one is created, and the other way round. Every name is legal; no write to one may touch the other.
+func (k *Walker) TwinProbe() {
+	base := fmt.Sprintf("tw%d", k.R.IntN(50))
+	deco := pickS(k.R, []string{".tmp", ".lock", ".new", "~", ".bak", ".orig", ".tmp~", "-tmp", ".swp"})
+	twin := base + deco
+	if k.chance(20) {
+		twin = pickS(k.R, []string{"tmp-", "tmp_", ".", "_", "new-"}) + base
+	}
+	if k.chance(50) {
+		k.goit("switch", "-c", twin)
+		k.goit("branch", base)
+		k.goit("status")
+		k.goit("branch", "--list")
+	} else {
+		k.goit("switch", "-c", base)
+		k.goit("branch", twin)
+		k.Do("commit-all")
+		k.goit("switch", twin)
+		k.goit("status")
+	}
+	k.W.C.Count("scale.twin-probes")
 }
 
 // goit runs a command, attaching the pending "constructed as invalid" tag if any.
@@ -94,7 +187,7 @@ func (k *Walker) wtDirs() []string {
 func (k *Walker) trackedDirs() []string {
 	set := map[string]bool{}
 	for _, p := range k.tracked() {
-		for d := path.Dir(p); d != "."; d = path.Dir(d) {
+		for d := path.Dir(p); d != "." && d != "/"; d = path.Dir(d) {
 			set[d] = true
 		}
 	}
@@ -135,7 +228,7 @@ func (k *Walker) freshPath() string {
 		}
 		// no ancestor may be a file; p may not be an existing dir
 		bad := false
-		for d := path.Dir(p); d != "."; d = path.Dir(d) {
+		for d := path.Dir(p); d != "." && d != "/"; d = path.Dir(d) {
 			if IsFileOnDisk(sn, d) {
 				bad = true
 			}
